@@ -512,7 +512,7 @@ fn explore_both(report: &mut Report, thorough: bool, seed: u64, which: &'static 
         DFamily {
             max_members: 3,
             max_fields: 2,
-            alphabet: vec![FamTy::Z, FamTy::Z2, FamTy::U8, FamTy::U16],
+            alphabet: vec![FamTy::Z, FamTy::Z2, FamTy::U8, FamTy::U16, FamTy::Tup0, FamTy::Tup2, FamTy::Tup3],
             forms: vec![MemberForm::NamedStruct],
             leads: vec![0],
             with_neighbours: false,
